@@ -203,7 +203,10 @@ impl<'a> Fmt<'a> {
                             e[20..22].copy_from_slice(&(h as u16).to_le_bytes());
                         }
                     }
-                    if t == "file" {
+                    if t == "file" && jb(sp, "nodata", false) {
+                        // a (huge) file whose contents do not matter: only the chain is linked
+                        self.link_chain(&chain);
+                    } else if t == "file" {
                         self.link_chain(&chain);
                         // fill data: every block of the chain is written (zero padded)
                         let upb = vals.upb();
